@@ -102,6 +102,10 @@ func Exp(ctx *expr.Context, input system.Collection, args ...expr.Expression) (s
 	}
 	// Exp number
 	res := math.Pow(math.E, number)
+	// Validating non-finite case
+	if math.IsInf(res, 0) || math.IsNaN(res) {
+		return system.Collection{}, nil
+	}
 	result := system.MustParseDecimal(fmt.Sprintf("%v", res))
 	return system.Collection{result}, nil
 }
@@ -144,8 +148,8 @@ func Ln(ctx *expr.Context, input system.Collection, args ...expr.Expression) (sy
 		return nil, err
 	}
 	res := math.Log(number)
-	// Validating NaN case
-	if math.IsNaN(res) {
+	// Validating NaN and infinite cases
+	if math.IsNaN(res) || math.IsInf(res, 0) {
 		return system.Collection{}, nil
 	}
 	// Type conversion to system.Decimal
@@ -203,6 +207,9 @@ func Power(ctx *expr.Context, input system.Collection, args ...expr.Expression) 
 	if err != nil {
 		return nil, err
 	}
+	if argValues.IsEmpty() {
+		return system.Collection{}, nil
+	}
 	// Validating integers case
 	_, ok := input[0].(system.Integer)
 	_, ok2 := argValues[0].(system.Integer)
@@ -233,8 +240,8 @@ func Power(ctx *expr.Context, input system.Collection, args ...expr.Expression) 
 	}
 	// Powering number
 	res := math.Pow(number, exp)
-	// Validating NaN case
-	if math.IsNaN(res) {
+	// Validating NaN and infinite cases
+	if math.IsNaN(res) || math.IsInf(res, 0) {
 		return system.Collection{}, nil
 	}
 	// Type conversion to system.Decimal
